@@ -206,6 +206,30 @@ def one_session(args):
 SHAPES = {'': [], 'o1': ['o1'], 'o2': ['o2'], 'o1o2': ['o1', 'o2'], 'o1o3': ['o1', 'o3'], 'o1o4': ['o1', 'o4']}
 
 
+def script_passes_signature(e, det):
+    sig = {'kind': 'gentest', 'clause': 'ScriptPasses'}
+    failing = sorted(t for t, v in e['verdict'].items() if v != 'pass')
+    sig['failing'] = ','.join(failing)
+    sig['iterations'] = det['flags'][det['flags'].index('-n') + 1]
+
+    def text_of_target(t):
+        b = det['behaviour']
+        if t == 'STDOUT':
+            return b['stdout']
+        if t == 'STDERR':
+            return b['stderr']
+        for n_, sp in b['files'].items():
+            if sp and sp['kind'] == 'text' and n_ == det.get('names', {}).get(t):
+                return sp['text']
+        return ''
+    sig['failing_mention_tmpdir'] = bool(failing) and all('{TMPDIR}' in text_of_target(t) for t in failing)
+    sig['verdicts'] = ','.join(sorted(set(e['verdict'][t] for t in failing)))
+    if failing == ['o2']:
+        name = [n for n, sp in det['behaviour']['files'].items() if sp and sp['kind'] == 'binary']
+        sig['binary_ext'] = os.path.splitext(name[0])[1] if name else ''
+    return sig
+
+
 def run_sessions(chk, seed, nsessions, nperturb, clauses, kind):
     root = common.subdir('gentest_' + kind)
     rnd = random.Random(seed)
@@ -255,6 +279,17 @@ def run_sessions(chk, seed, nsessions, nperturb, clauses, kind):
                     sig['error'] = e['raised']
                 # which perturbation (if any) preceded this line
                 prev = [x for x in events[:idx] if x['tid'] == e['tid'] and x['ev'] == 'Perturb']
+                if clause == 'ScriptPasses' and e['ev'] == 'RunTest' and len([t for t, v in e['verdict'].items() if v != 'pass']) > 1:
+                    # several tests of one script fail: one witness per failing test (each may have its own cause)
+                    for t_ in sorted(t for t, v in e['verdict'].items() if v != 'pass'):
+                        e1 = dict(e, verdict={k_: (v_ if k_ == t_ else 'pass') for k_, v_ in e['verdict'].items()})
+                        sig1 = script_passes_signature(e1, det)
+                        chk.violation(sig1, {'case': {k: v for k, v in det.items() if k != 'wd'}, 'event': e, 'failing_test': t_,
+                                             'previous_perturbation': prev[-1] if prev else None,
+                                             'how': 'python -m tdda.referencetest.gentest in a scratch directory; generated test run with '
+                                                    'python test_job.py -v; judged by spec/Trace_Gentest.tla'})
+                        nviol += 1
+                    continue
                 if clause == 'ScriptPasses' and e['ev'] == 'RunTest':
                     failing = sorted(t for t, v in e['verdict'].items() if v != 'pass')
                     sig['failing'] = ','.join(failing)
